@@ -364,14 +364,167 @@ pub fn run_token_level(ctx: &Ctx, rep: &mut Report) {
     rep.absorb(out);
 }
 
+
+// ---------------------------------------------------------------------------
+// tree level
+
+use crate::gen::cases::TreeCase;
+use crate::sinks::canon::{first_diff, rcdom_canon, CanonOpts};
+use crate::sinks::drive::{drive, quirks_name, Pause};
+use crate::sinks::model::{model_canon, ModelDom, DOC};
+use html5ever::tree_builder::TreeSink;
+use markup5ever_rcdom::RcDom;
+
+#[derive(Serialize, Deserialize, Clone, Debug, Hash, PartialEq, Eq)]
+pub struct TreeSched {
+    pub tree: TreeCase,
+    pub inject: Vec<(usize, String)>,
+}
+
+/// Drive a sink over the schedule; returns (output, effective stream, pauses seen).
+fn drive_sched<S: TreeSink>(sink: S, ts: &TreeSched, chunks_: &[String], inject: &[(usize, String)]) -> (S::Output, String, usize) {
+    let fed = std::cell::RefCell::new(String::new());
+    let pushed = std::cell::Cell::new(0usize); // bytes of chunks pushed so far
+    let pause_no = std::cell::Cell::new(0usize);
+    // `drive` pushes a chunk and then calls us at every suspension of that chunk
+    let mut offsets = vec![];
+    let mut acc = 0;
+    for c in chunks_ {
+        acc += c.len();
+        offsets.push(acc);
+    }
+    let chunk_idx = std::cell::Cell::new(0usize);
+    let all: String = chunks_.concat();
+    let (out, _, _) = drive(sink, &ts.tree.cfg, chunks_, |parser, pause, _, _| {
+        // account for the chunk that was pushed before this callback
+        let upto = offsets[chunk_idx.get()];
+        if pushed.get() < upto {
+            fed.borrow_mut().push_str(&all[pushed.get()..upto]);
+            pushed.set(upto);
+        }
+        match pause {
+            Pause::ChunkEnd => chunk_idx.set(chunk_idx.get() + 1),
+            Pause::Encoding => {},
+            Pause::Script => {
+                let q = parser.input_buffer.clone();
+                let mut rem = String::new();
+                while let Some(t) = q.pop_front() {
+                    rem.push_str(&t);
+                }
+                if let Some((_, s)) = inject.iter().find(|(k, _)| *k == pause_no.get()) {
+                    if !s.is_empty() {
+                        parser.input_buffer.push_front(tendril::StrTendril::from(s.as_str()));
+                        let mut f = fed.borrow_mut();
+                        let at = f.len() - rem.len();
+                        f.insert_str(at, s);
+                    }
+                }
+                pause_no.set(pause_no.get() + 1);
+            },
+        }
+    });
+    let mut f = fed.into_inner();
+    if pushed.get() < all.len() {
+        f.push_str(&all[pushed.get()..]);
+    }
+    (out, f, pause_no.get())
+}
+
+pub fn check_tree(ts: &TreeSched, st: &mut Stats) -> Result<(), String> {
+    st.eval();
+    let (dom, fed, pauses) = drive_sched(ModelDom::new(), ts, &ts.tree.chunks, &ts.inject);
+    let one = TreeSched { tree: ts.tree.clone(), inject: vec![] };
+    let (dom1, _, _) = drive_sched(ModelDom::new(), &one, &[fed.clone()], &[]);
+    let (a, b) = (model_canon(&dom, DOC, CanonOpts::default()), model_canon(&dom1, DOC, CanonOpts::default()));
+    if a != b {
+        return Err(format!(
+            "final tree of the scheduled run differs from the one-piece run over the effective stream: {}\n chunks {:?} inject {:?} effective stream {:?}",
+            first_diff(&b, &a),
+            ts.tree.chunks,
+            ts.inject,
+            fed
+        ));
+    }
+    if dom.quirks.get() != dom1.quirks.get() {
+        return Err(format!("quirks mode differs: {} vs {}", quirks_name(dom.quirks.get()), quirks_name(dom1.quirks.get())));
+    }
+    // RcDom too
+    let (r, _, _) = drive_sched(RcDom::default(), ts, &ts.tree.chunks, &ts.inject);
+    let (r1, _, _) = drive_sched(RcDom::default(), &one, &[fed.clone()], &[]);
+    let (ra, rb) = (rcdom_canon(&r.document, CanonOpts::default()), rcdom_canon(&r1.document, CanonOpts::default()));
+    if ra != rb {
+        return Err(format!("RcDom tree of the scheduled run differs from the one-piece run: {}", first_diff(&rb, &ra)));
+    }
+    let nonempty = ts.tree.chunks.iter().filter(|c| !c.is_empty()).count();
+    let mut nt = false;
+    if nonempty >= 2 {
+        st.label("tree level: >=2 non-empty chunks");
+        nt = true;
+    }
+    if pauses > 0 {
+        st.label("tree level: script suspension");
+        if ts.inject.iter().any(|(k, s)| *k < pauses && !s.is_empty()) {
+            st.label("tree level: injection at a script suspension");
+            nt = true;
+        }
+    }
+    if nt {
+        st.nontrivial(hash64(ts), || serde_json::to_value(ts).unwrap());
+    }
+    Ok(())
+}
+
+pub fn decode_tree(s: &mut Src) -> TreeSched {
+    let mut tc = crate::gen::cases::gen_tree_case(s, true, 30);
+    if s.chance(120) {
+        let at = s.below(tc.input.chars().count() + 1);
+        let cs: Vec<char> = tc.input.chars().collect();
+        let body = *s.pick(&["", "x", "document.write('<b>')", "<!--", "\r\n"]);
+        tc.input = format!(
+            "{}<script>{}</script>{}",
+            cs[..at].iter().collect::<String>(),
+            body,
+            cs[at..].iter().collect::<String>()
+        );
+    }
+    if s.chance(40) {
+        tc.input = format!("{}<svg><script>x</script></svg>", tc.input);
+    }
+    tc.cfg.discard_bom = s.bool();
+    tc.cfg.tok_exact_errors = s.chance(40);
+    let n = tc.input.chars().count();
+    let cuts = chunks::gen_cuts(s, n);
+    tc.chunks = chunks::chunk_str(&tc.input, &cuts);
+    let mut inject = vec![];
+    let k = s.below(3);
+    for _ in 0..k {
+        let idx = s.below(3);
+        let text = match s.below(7) {
+            0 => String::new(),
+            1 => "x".to_string(),
+            2 => "<b>".to_string(),
+            3 => "</p><table>".to_string(),
+            4 => "<script>y</script>".to_string(),
+            5 => "\u{feff}z".to_string(),
+            _ => crate::gen::html::gen_html(s, 5),
+        };
+        if !inject.iter().any(|(i, _)| *i == idx) {
+            inject.push((idx, text));
+        }
+    }
+    TreeSched { tree: tc, inject }
+}
+
 pub fn run(ctx: &Ctx) -> Report {
     let mut rep = Report::new(
-        "Metamorphic: run(schedule) == run(one piece over the effective stream). Token level: html5ever's tokenizer with a recording sink (HTML-like policy: raw-text switches, Script suspension at </script>), default and exact_errors options; compared: every non-character token incl. ParseError text with its line number, and between them the concatenated character data with the line number of its last fragment; at every Script suspension the unread remainder is read off the BufferQueue, the consumed prefix must end with the suspending tag (checked by tokenizing the prefix alone), and text pushed to the front of the input there must be parsed as if written at that position (one-piece run over prefix+injected+rest). Search: every partition of every input of a pool (~3k inputs <=12 chars placing CR, LF, CRLF, U+FEFF, character references, DOCTYPE/PUBLIC/SYSTEM/--/[CDATA[ keywords, </script, raw-text end tags in each context), then random token soup x random cut multisets (incl. empty and one-character chunks) x random injections. Non-trivial: >=2 non-empty chunks with a cut after CR, before U+FEFF, inside markup, inside a look-ahead keyword, inside a character reference, or a non-empty injection at a suspension; distinct by hash of (case, chunks, injections).",
+        "Metamorphic: run(schedule) == run(one piece over the effective stream). Token level: html5ever's tokenizer with a recording sink (HTML-like policy: raw-text switches, Script suspension at </script>), default and exact_errors options; compared: every non-character token incl. ParseError text with its line number, and between them the concatenated character data with the line number of its last fragment; at every Script suspension the unread remainder is read off the BufferQueue, the consumed prefix must end with the suspending tag (checked by tokenizing the prefix alone), and text pushed to the front of the input there must be parsed as if written at that position (one-piece run over prefix+injected+rest). Tree level: Parser driven by hand (tokenizer.feed(&input_buffer)) over ModelDom and RcDom, grammar-generated documents/fragments with script elements, random chunkings, injections through input_buffer.push_front at Script results; final tree and quirks mode must equal the one-piece run over the effective stream. Search: every partition of every input of a pool (~3k inputs <=12 chars placing CR, LF, CRLF, U+FEFF, character references, DOCTYPE/PUBLIC/SYSTEM/--/[CDATA[ keywords, </script, raw-text end tags in each context), then random token soup x random cut multisets (incl. empty and one-character chunks) x random injections. Non-trivial: >=2 non-empty chunks with a cut after CR, before U+FEFF, inside markup, inside a look-ahead keyword, inside a character reference, or a non-empty injection at a suspension; distinct by hash of (case, chunks, injections).",
     );
     rep.assume("fragment boundaries of character data legitimately move with chunking; only the concatenation and the line of the last fragment are compared");
     report_known(ctx, &mut rep, &|v| replay(&ctx.strict_clone(), v));
     run_regressions(ctx, &mut rep, &|v| replay(&ctx.strict_clone(), v));
     run_token_level(ctx, &mut rep);
+    let out = run_random(ctx.seed ^ 0x33, ctx.tier.pick(150_000, 6_000_000), 1500, decode_tree, check_tree);
+    rep.absorb(out);
     for l in [
         "cut after CR",
         "cut between CR and LF",
@@ -380,6 +533,8 @@ pub fn run(ctx: &Ctx) -> Report {
         "cut inside </script",
         "cut inside a character reference",
         "injection at a script suspension",
+        "tree level: >=2 non-empty chunks",
+        "tree level: injection at a script suspension",
     ] {
         rep.need(l, 200);
     }
@@ -387,7 +542,11 @@ pub fn run(ctx: &Ctx) -> Report {
 }
 
 pub fn replay(_ctx: &Ctx, v: &Value) -> Result<(), String> {
-    let case: Case = serde_json::from_value(v.clone()).map_err(|e| format!("bad case: {e}"))?;
     let mut st = Stats::default();
+    if v.get("tree").is_some() {
+        let ts: TreeSched = serde_json::from_value(v.clone()).map_err(|e| format!("bad case: {e}"))?;
+        return check_tree(&ts, &mut st);
+    }
+    let case: Case = serde_json::from_value(v.clone()).map_err(|e| format!("bad case: {e}"))?;
     check(&case, &mut st)
 }
